@@ -22,6 +22,7 @@ import SJ.Drv.LexMath
 import SJ.Drv.StreamTyped
 import SJ.Drv.LineCol
 import SJ.Drv.C19b
+import SJ.Drv.Readers
 /-!
 `sjdriver` — reads case lines `op args… => impl-observation` on stdin, runs the Lean model and the
 executable specification on each, prints
@@ -57,6 +58,7 @@ def allHandlers : List (String × Handler) :=
     StreamTyped.handlers,
     LineCol.handlers,
     C19b.handlers,
+    Readers.handlers,
   ]
 
 def findHandler (op : String) : Option Handler := (allHandlers.find? (·.1 == op)).map (·.2)
